@@ -50,9 +50,20 @@ LexStep(s, c) ==
       [] s = "entry" -> (IF c \in {"bullet", "cont", "blank"} THEN "entry" ELSE "bad")
       [] OTHER       -> "bad"
 
+\* the run of the DFA as a fold (recursion depth = number of lines: used on short inputs, in M)
 RECURSIVE LexFrom(_, _, _)
 LexFrom(s, cs, i) == IF i > Len(cs) THEN s ELSE LexFrom(LexStep(s, cs[i]), cs, i + 1)
-LexRun(cs) == LexFrom(LexInit, cs, 1)
+LexFold(cs) == LexFrom(LexInit, cs, 1)
+
+\* ... and in closed form (no recursion: stderr of a real run can have thousands of lines).
+\* ReportLexer.tla model-checks that the step-wise machine, the fold and the closed form agree.
+LexRun(cs) ==
+    IF Len(cs) = 0 THEN "start"
+    ELSE IF cs[1] # "headline" THEN "bad"
+    ELSE IF Len(cs) = 1 THEN "head"
+    ELSE IF cs[2] # "bullet" THEN "bad"
+    ELSE IF \A i \in 3..Len(cs) : cs[i] \in {"bullet", "cont", "blank"} THEN "entry"
+    ELSE "bad"
 
 \* the declarative shape the DFA is meant to recognise:
 \* one headline, then at least one bullet, then only bullets / continuation lines / blank lines
